@@ -34,7 +34,7 @@ Definition float_of_Z (z : Z) : float :=
   match z with
   | Z0 => PrimFloat.zero
   | Zpos p => SF2Prim (binary_normalize prec emax (Zpos p) 0 false)
-  | Zneg p => SF2Prim (binary_normalize prec emax (Zpos p) 0 true)
+  | Zneg p => PrimFloat.opp (SF2Prim (binary_normalize prec emax (Zpos p) 0 false))
   end.
 
 Definition float_floor (f : float) : float :=
